@@ -51,10 +51,8 @@ def gIndex (a : Auto) (key : Nat) : Option Nat :=
   | some (.found _ v) => some v
   | some (.absent _) => some 0
 
-/-- the constructor: `lookup_(initial_size)` â€” `x` is the argument `RoundBuckets` receives,
-`max(initial_size + 1, uint64(1.2f * initial_size))` â€” then `<unk>`, `<s>`, `</s>` are forced to 0, 1, 2 -/
-def gNew (sp : Specials) (x : Nat) : Except VErr Auto :=
-  let a0 : Auto := { t := emptyTable (roundBuckets x), thr := thetaReal (roundBuckets x) }
+/-- the body of the constructor: `<unk>`, `<s>`, `</s>` are forced to 0, 1, 2 -/
+def gNewFrom (sp : Specials) (a0 : Auto) : Except VErr Auto :=
   match gFindOrInsert a0 sp.unk with
   | .error e => .error e
   | .ok (_, a1) =>
@@ -64,6 +62,13 @@ def gNew (sp : Specials) (x : Nat) : Except VErr Auto :=
       match gFindOrInsert a2 sp.eos with
       | .error e => .error e
       | .ok (_, a3) => .ok a3
+
+/-- `lookup_(initial_size)`: the empty `AutoProbing` with `RoundBuckets(x)` buckets, where `x` is
+`max(initial_size + 1, uint64(1.2f * initial_size))` -/
+def gTable (x : Nat) : Auto := { t := emptyTable (roundBuckets x), thr := thetaReal (roundBuckets x) }
+
+/-- the constructor of `GrowableVocab` -/
+def gNew (sp : Specials) (x : Nat) : Except VErr Auto := gNewFrom sp (gTable x)
 
 /-- the inner loop of `CorpusCount::RunWithVocab` over one line: `word = vocab.FindOrInsert(w);
 if (vocab.IsSpecial(word)) continue; writer.Append(word);` -/
@@ -87,18 +92,19 @@ def gEncodeLines (a : Auto) : List (List Nat) â†’ Except VErr (List (List Nat) Ã
       | .error e => .error e
       | .ok (rest, a'') => .ok (ids :: rest, a'')
 
+/-- `CorpusCount::RunWithVocab` on a freshly constructed vocabulary `a` -/
+def gEncodeFrom (sp : Specials) (a : Auto) (text : List (List Nat)) : Except VErr (List (List Nat) Ã— Nat) :=
+  match gFindOrInsert a sp.eos with      -- `end_sentence = vocab.FindOrInsert("</s>")`
+  | .error e => .error e
+  | .ok (_, a') =>
+    match gEncodeLines a' text with
+    | .error e => .error e
+    | .ok (ids, a'') => .ok (ids, a''.t.entries)
+
 /-- tokens (as hashes, line by line) â†’ the id sequences `CorpusCount` appends, for the initial table
 size argument `x`; also the final vocabulary size (`type_count_`) -/
 def growableEncode (sp : Specials) (x : Nat) (text : List (List Nat)) : Except VErr (List (List Nat) Ã— Nat) :=
-  match gNew sp x with
-  | .error e => .error e
-  | .ok a =>
-    match gFindOrInsert a sp.eos with      -- `end_sentence = vocab.FindOrInsert("</s>")`
-    | .error e => .error e
-    | .ok (_, a') =>
-      match gEncodeLines a' text with
-      | .error e => .error e
-      | .ok (ids, a'') => .ok (ids, a''.t.entries)
+  (gNew sp x).bind fun a => gEncodeFrom sp a text
 
 /-! the specification: ids by order of first occurrence, no table at all -/
 
